@@ -272,6 +272,33 @@ def u_init_keys(ip):
     c.oblige("no_key_consumed_twice", not c.ghost.get("key_reuse"))
 
 
+@unit("C10.constructor_draws_advance_the_engine_key", "C10", [f"{E}.__init__", f"{E}._split_prng_key", f"{E}._split_prng_key_one", "liesel/goose/kernel_sequence.py::KernelSequence.init_states"],
+      summaries=[f"{ENG}::_split_keys (consumes its input; children = distinct split paths)"], assumptions=["A-JIT / A-VMAP", "two kernels; REAL constructor, real key bookkeeping"])
+def u_ctor_keys(ip):
+    """the keys the constructor hands to the kernels' init_state calls are a DRAW from the engine's key state: afterwards the state has moved on (it is the carry
+    child of the seeds), so the next draw - the first epoch's start_epoch keys, or the first generated quantity - is a different key."""
+    c = ip.ctx
+    from contracts.c07 import IDENTS, ghost_kernel
+    install_engine_models(ip)
+    engine_key_models(ip)
+    ip.summaries.pop(f"{E}._split_prng_key_one", None)  # the REAL bookkeeping
+    ip.models["jax.jit"] = lambda ip_, f, **kw: f
+    ip.summaries["liesel/goose/epoch.py::EpochManager.__init__"] = lambda ip_, args, kwargs: None
+    trace = []
+    ks = [ghost_kernel(ip, i, trace, IDENTS[i]) for i in range(2)]
+    seq = ip.call(ip.repo("liesel/goose/kernel_sequence.py::KernelSequence"), [list(ks)], {})
+    seeds = z3.Const("seeds", U)
+    eng = ip.call(ip.repo(E), [], dict(seeds=seeds, model_states=z3.Const("model_states", U), kernel_sequence=seq, epoch_configs=z3.Const("epoch_configs", U),
+                                       jitted_sample_duration=c.fresh("chunk", Int), model=PyObj("model"), position_keys=None, show_progress=False))
+    inits = [t for t in trace if t[0] == "init_state"]
+    carry, draw = ip.uf("child", seeds, z3.IntVal(0)), ip.uf("child", seeds, z3.IntVal(1))
+    c.oblige("kernels_initialised_from_the_first_draw", [t[1] for t in inits] == [0, 1] and all(is_z3(t[2][0]) and str(draw) in str(t[2][0]) for t in inits) and str(inits[0][2][0]) != str(inits[1][2][0]))
+    c.oblige("engine_key_state_moved_on", ip.to_U(eng.f["_prng_key"]).eq(carry))
+    nxt = ip.call(method(ip, eng, "_split_prng_key_one"), [], {})
+    c.oblige("next_draw_differs_from_the_constructors", is_z3(nxt) and nxt.eq(ip.uf("child", carry, z3.IntVal(1))) and not nxt.eq(draw))
+    c.oblige("no_key_consumed_twice", not c.ghost.get("key_reuse"))
+
+
 @unit("C10.lifecycle_keys", "C10", [f"{E}._end_epoch", f"{E}._tune_kernels", f"{E}._kernel_start_epoch", f"{E}._end_warmup"],
       summaries=[f"{E}._split_prng_key_one (C10.engine_key_ownership: every call hands out a key never handed out before)", "KernelSequence methods split their key once per kernel (C07.kernel_sequence)"])
 def u_lifecycle_keys(ip):
